@@ -8,6 +8,7 @@ import (
 	"io"
 	"net"
 	"strings"
+	"sync"
 	"time"
 
 	"github.com/gammazero/nexus/v3/stdlog"
@@ -34,6 +35,10 @@ type rawSocketPeer struct {
 	ctxSender    context.Context
 
 	writerDone chan struct{}
+
+	// Serializes writes to the socket: messages are written by sendHandler,
+	// PONGs by recvHandler.
+	writeMu sync.Mutex
 
 	log stdlog.StdLog
 }
@@ -218,15 +223,7 @@ sendLoop:
 					rs.sendLimit)
 				continue sendLoop
 			}
-			lenBytes := intToBytes(len(b))
-			header := []byte{0x0, lenBytes[0], lenBytes[1], lenBytes[2]}
-			if _, err = rs.conn.Write(header); err != nil {
-				if !wamp.IsGoodbyeAck(msg) {
-					rs.log.Println("Error writing header:", err)
-				}
-				continue sendLoop
-			}
-			if _, err = rs.conn.Write(b); err != nil {
+			if err = rs.writeFrame(0x0, b); err != nil {
 				if !wamp.IsGoodbyeAck(msg) {
 					rs.log.Println("Error writing message:", msg, err)
 				}
@@ -236,6 +233,23 @@ sendLoop:
 			return
 		}
 	}
+}
+
+// writeFrame writes a frame, header and payload, to the socket with a single
+// Write, while holding the write lock. Messages and PONGs are written by
+// different goroutines; without this a PONG can end up between the header and
+// the body of a message, or between two parts of a message, which corrupts
+// the stream for the receiver.
+func (rs *rawSocketPeer) writeFrame(frameType byte, payload []byte) error {
+	lenBytes := intToBytes(len(payload))
+	frame := make([]byte, 4+len(payload))
+	frame[0], frame[1], frame[2], frame[3] = frameType, lenBytes[0], lenBytes[1], lenBytes[2]
+	copy(frame[4:], payload)
+
+	rs.writeMu.Lock()
+	_, err := rs.conn.Write(frame)
+	rs.writeMu.Unlock()
+	return err
 }
 
 // recvHandler pulls messages from the socket and pushes them to the read
@@ -290,13 +304,14 @@ MsgLoop:
 				continue MsgLoop
 			}
 		case 1: // PING
-			header[0] = 0x02
-			if _, err = rs.conn.Write(header[:]); err != nil {
-				rs.log.Println("Error writing header responding to PING:", err)
+			// Read the whole payload, then answer with one PONG frame.
+			buf := make([]byte, length)
+			if _, err = io.ReadFull(rs.conn, buf); err != nil {
+				rs.log.Println("Error reading PING:", err)
 				_ = rs.conn.Close()
 				return
 			}
-			if _, err = io.CopyN(rs.conn, rs.conn, int64(length)); err != nil {
+			if err = rs.writeFrame(0x02, buf); err != nil {
 				rs.log.Println("Error responding to PING:", err)
 				_ = rs.conn.Close()
 				return
